@@ -47,7 +47,7 @@ def LockOut (tbl : Table) (fs : FlagMap) (inpW : Bytes) (δ : Nat) (K : Nat → 
        eoi = true ∧ ∃ d', c' + d' = c + δ ∧ K d' rs.1.x.sink rw.1.x.sink ∧ rw.1.x.sim = rs.1.x.sim ∧
          rs.1.x.prevConsumed = rw.1.x.prevConsumed + δ ∧
          (rs.1.c.isLast = false → BCore tbl fs inpW d' d' 0 rs.1 rw.1) ∧
-         (rs.1.c.isLast = true → d' = 0) ∧
+         d' = 0 ∧
          (0 < d' → Loc rs.1.x.sink rs.1.x.prevConsumed c rs.1.c.lastTextType) ∧
          (rs.1.c.isLast = false → lexStart rs.1.r = 0)
    | some (.directive dr bm), some (.directive dr' bm') =>
@@ -112,13 +112,14 @@ structure StOk (tbl : Table) (fs : FlagMap) (st : StateId) (sd : StateDef) : Pro
   debt : hasEoc sd = true → sd.enter.isEmpty = true ∧ (fs st).2 = Ab.none ∧ (fs st).1 = Ab.none ∧ hasSeq sd = false ∧
     ∀ a ∈ sd.arms, debtArmOk a = true
   mem : sd.memchr.isSome = true → hasSeq sd = false
+  eocF : hasEoc sd = true → eocFirst sd.arms = true
 
 theorem stOk_of {tbl : Table} {fs : FlagMap} {st : StateId} {sd : StateDef} (h : stateOk tbl fs st sd = true) :
     StOk tbl fs st sd := by
   unfold stateOk at h
   simp only [Bool.and_eq_true, Bool.not_eq_true', Bool.or_eq_true, List.all_eq_true, beq_iff_eq] at h
-  obtain ⟨⟨⟨⟨⟨⟨⟨h1, h2⟩, h3⟩, h4⟩, h5⟩, h6⟩, h7⟩, h8⟩ := h
-  refine ⟨h1, h2, fun g => ?_, fun g => ?_, fun g => ?_, fun g => ?_, h6, fun g => ?_, fun g => ?_⟩
+  obtain ⟨⟨⟨⟨⟨⟨⟨⟨h1, h2⟩, h3⟩, h4⟩, h5⟩, h6⟩, h7⟩, h8⟩, h9⟩ := h
+  refine ⟨h1, h2, fun g => ?_, fun g => ?_, fun g => ?_, fun g => ?_, h6, fun g => ?_, fun g => ?_, fun g => ?_⟩
   · rcases h3 with h3 | h3
     · rw [g] at h3; cases h3
     · exact h3
@@ -140,6 +141,9 @@ theorem stOk_of {tbl : Table} {fs : FlagMap} {st : StateId} {sd : StateDef} (h :
   · rcases h8 with h8 | h8
     · rw [Option.isNone_iff_eq_none] at h8; rw [h8] at g; cases g
     · exact h8
+  · rcases h9 with h9 | h9
+    · unfold hasEoc at g; rw [g] at h9; cases h9
+    · exact h9
 
 /-- static context of a step: the current state, its definition and the table facts -/
 structure StepCtx (tbl : Table) (fs : FlagMap) (st : StateId) (sd : StateDef) (c : Common) : Prop where
